@@ -23,6 +23,9 @@ CHECKS = {
  "C06": dict(category="exploration", technique="Hypothesis-generated transcripts with the CDS placed as a contiguous run of the transcript (biased to ends/exon boundaries), judged by position lists T and C=T[i:j]",
    text="Every transcript, CDS and chromosome position (span+-1) through every conversion and its inverse, both paths chromosome->CDS, random intervals in each system, amino-acid index, non-coding refusals, 5'UTR/CDS/3'UTR partition (positions, order, sequence concatenation), introns and span.",
    note="An empty UTR may be any zero-length location but never an exception.", ref="DESIGN.md §5 C06"),
+ "C14": dict(category="exploration", technique="Hypothesis-generated transcripts/features x chunk windows x export modes; the exported text is re-read by an independent 12-column BED reader and decoded back to blocks",
+   text="BED12 format invariants (block count, first start 0, ascending non-overlapping blocks, last block reaches end, thick range inside) and exact decoding to the exported blocks, span, strand, name, score, RGB and CDS bounds in chromosome and chunk-relative coordinates.",
+   note="Chunk windows contain the interval; thickStart=thickEnd=0 accepted for non-coding records (documented convention).", ref="DESIGN.md §5 C14"),
  "C15": dict(category="exploration", technique="exhaustive enumeration of the finite domains against typed-in IUPAC tables and Biopython's NCBI codon tables",
    text="Every element of every finite domain (4096 IUPAC triplets x case, all alphabet letters, frames x shifts in [-30,30], all strand pairs/triples, all biotype names) is enumerated and compared with an independent reference; within those domains this is complete.",
    note="Trusts Biopython CodonTable ids 1/11 and Bio.Seq.complement; IUPAC tables typed into checks/c15.py.", ref="DESIGN.md §5 C15"),
